@@ -467,6 +467,10 @@ def do_check(pid, tier, seed, jobs, keep):
     problems = state_shape_problems()
     exe, reg = registry(workdir)
     main, witness = select(reg, pid, tier, kfs, seed)
+    only = os.environ.get("VERIF_ONLY")  # debugging aid: restrict to harnesses whose name contains this
+    if only:
+        main = [e for e in main if only in e["name"]]
+        witness = []
     if not main:
         log("no harness registered for", pid)
         return 2
